@@ -268,6 +268,24 @@ func boundCandidates(f *ssa.Function) []boundCand {
 			}
 			g := lenAtLeastIP(f, in, x.X, k, 0)
 			out = append(out, boundCand{in, fmt.Sprintf("%s[…%d…]", firstN(xp, 50), k), g, "dominated by len >= " + fmt.Sprint(k) + " (here or at every call site)"})
+		case *ssa.SliceToArrayPointer:
+			// [N]T(s) / (*[N]T)(s): panics unless len(s) >= N
+			pt, ok := x.Type().Underlying().(*types.Pointer)
+			if !ok {
+				return
+			}
+			at, ok := pt.Elem().Underlying().(*types.Array)
+			if !ok || at.Len() == 0 {
+				return
+			}
+			k := at.Len()
+			xp := pathOf(x.X)
+			if n, ok := staticLen(x.X, 0); ok && n >= k {
+				out = append(out, boundCand{in, fmt.Sprintf("[%d]T(%s)", k, firstN(xp, 50)), true, fmt.Sprintf("static length %d", n)})
+				return
+			}
+			g := lenAtLeastIP(f, in, x.X, k, 0)
+			out = append(out, boundCand{in, fmt.Sprintf("[%d]T(%s)", k, firstN(xp, 50)), g, "dominated by len >= " + fmt.Sprint(k) + " (here or at every call site)"})
 		case *ssa.IndexAddr, *ssa.Index:
 			var xv, iv ssa.Value
 			if ia, ok := x.(*ssa.IndexAddr); ok {
